@@ -23,6 +23,7 @@ import GrafeoModel.Driver.Ser
 import GrafeoModel.Driver.QueryAgg
 import GrafeoModel.Driver.C15b
 import GrafeoModel.Driver.Query
+import GrafeoModel.Driver.SparqlTx
 import GrafeoModel.Driver.Join
 import GrafeoModel.Driver.Epoch
 import GrafeoModel.Driver.Par
@@ -156,6 +157,10 @@ def dispatch (st : DState) (line : String) : DState × String :=
       | none => (st, "bad-op")
     else if stream == "join" then
       match DriverJoin.handle args with
+      | some o => (st, o.render)
+      | none => (st, "bad-op")
+    else if stream == "sptx" then
+      match DriverSparqlTx.handle args with
       | some o => (st, o.render)
       | none => (st, "bad-op")
     else if stream == "lex" then
